@@ -7,6 +7,8 @@ sys.path.insert(0, os.path.dirname(os.path.abspath(__file__)))
 
 TRANSLATORS = [
     ('sdof_coeffs', 'py2coq_scalar', 'regenerate'),
+    ('sdof_loop', 'py2coq_sdof_loop', 'regenerate'),
+    ('quadrature', 'py2coq_numpy', 'regenerate'),
     ('design_spectra', 'py2coq_design', 'regenerate'),
     ('effects_ir', 'py2ir_effects', 'regenerate'),
 ]
